@@ -10,7 +10,7 @@
      MapBack                 UniformMeshGeometryConverter.setAssemblyStateFromOverlaps(dst, src, mapper, mapNumberDensities=True)
      Snap(tops, flag)        Assembly.makeAxialSnapList(refMesh = own mesh) ; Assembly.setBlockMesh(tops, conserveMassFlag = flag)
                              (refused without any change for a one-block assembly: its last topIndex is 0)
-   Operators transcribing queries / helpers of the code
+   Operators transcribing queries / helpers of the code (the variable-free ones live in RemeshDefs.tla, shared with CoreRemesh)
      Between(a, lo, hi)      Assembly.getBlocksBetweenElevations   (touched blocks, clipped heights, sliver filter, height check)
      BlockAt(a, e)           Assembly.getBlockAtElevation
      MapN                    uniformMesh.setNumberDensitiesFromOverlaps          N' = sum N_i h_i / H'
@@ -43,7 +43,7 @@
    Not modelled: the choice of the source block a new block is copied from (xsType majority rule), setBlockMesh with a mesh
    that has None entries or is too short (the code then stops half way with a warning), multigroup pin-level parameters.
 *)
-EXTENDS Integers, Sequences, FiniteSets, TLC, Json, SequencesExt, FiniteSetsExt, Rational
+EXTENDS RemeshDefs, Json
 
 CONSTANTS H,             \* height of the initial assembly in mesh units
           SrcPts,        \* interior points the initial mesh may use   (1..H-1 in the plain configurations)
@@ -59,61 +59,14 @@ CONSTANTS H,             \* height of the initial assembly in mesh units
 
 VARIABLES src, dst, stage, orig, pre, hist, ini
 vars == <<src, dst, stage, orig, pre, hist, ini>>
-
-Nuc == {"pin", "duct", "fluid"}
 Par == {"I", "IA", "A", "AA", "P"}
-Arity(p)      == IF p \in {"IA", "AA"} THEN 2 ELSE 1
-Integrated(p) == p \in {"I", "IA"}
-IsPeak(p)     == p = "P"
-Unset         == <<>>
-Default(p)    == IF p \in {"IA", "AA"} THEN Unset ELSE <<RZero>>
 NoAsm         == [tops |-> <<>>, fuel |-> 0, asmFuel |-> FALSE, N |-> <<>>, P |-> <<>>]
 
-Min2(a, b) == IF a <= b THEN a ELSE b
-Max2(a, b) == IF a >= b THEN a ELSE b
-Idx(k)     == [i \in 1..k |-> i]
-K(a)       == Len(a.tops)
-Bot(a, i)  == IF i = 1 THEN 0 ELSE a.tops[i - 1]
-Ht(a, i)   == a.tops[i] - Bot(a, i)
-Top(a)     == IF K(a) = 0 THEN 0 ELSE a.tops[K(a)]
-SortedSeq(S) == SetToSortSeq(S, LAMBDA x, y : x < y)
-\* all meshes (strictly increasing tops) that span 0..top
-Meshes(top, pts) == {SortedSeq(S \cup {top}) : S \in SUBSET (pts \cap (1..(top - 1)))}
 \* elevations at which the queries are evaluated: every point any mesh can have (all of 0..H in the plain configurations; the
 \* sliver configurations use H in the thousands with a handful of admissible points)
 QPts(a) == ({0, H} \cup SrcPts \cup DstPts \cup {a.tops[i] : i \in 1..K(a)}) \cap (0..Top(a))
-
-(* ---------------- Assembly.getBlocksBetweenElevations / getBlockAtElevation ---------------- *)
-Touched(a, lo, hi) == SelectSeq(Idx(K(a)), LAMBDA i : a.tops[i] >= lo /\ Bot(a, i) <= hi)
-OvH(a, i, lo, hi)  == Min2(a.tops[i], hi) - Max2(Bot(a, i), lo)
-Between(a, lo, hi) == LET kept == SelectSeq(Touched(a, lo, hi), LAMBDA i : OvH(a, i, lo, hi) > 0)
-                      IN [j \in 1..Len(kept) |-> <<kept[j], OvH(a, kept[j], lo, hi)>>]
-BetweenTotal(a, lo, hi)    == FoldLeft(LAMBDA acc, x : acc + x[2], 0, Between(a, lo, hi))
-BetweenExpected(a, lo, hi) == LET t == Touched(a, lo, hi) IN Min2(a.tops[t[Len(t)]] - Bot(a, t[1]), hi - lo)
-BetweenRaises(a, lo, hi)   == Touched(a, lo, hi) = <<>> \/ BetweenTotal(a, lo, hi) # BetweenExpected(a, lo, hi)
-BlockAt(a, e) == LET hits == SelectSeq(Idx(K(a)), LAMBDA i : a.tops[i] >= e /\ Bot(a, i) < e)
-                 IN IF hits = <<>> THEN 0 ELSE hits[1]
-
-(* ---------------- the two mapping rules ---------------- *)
-VZero(p) == [g \in 1..Arity(p) |-> RZero]
-VAddScaled(acc, v, num, den) == [g \in 1..Len(acc) |-> RAdd(acc[g], RMul(v[g], RFrac(num, den)))]
-VMax(acc, v) == [g \in 1..Len(acc) |-> RMax(v[g], acc[g])]
-
-MapN(a, lo, hi, n) ==
-    FoldLeft(LAMBDA acc, x : RAdd(acc, RMul(a.N[x[1]][n], RFrac(x[2], hi - lo))), RZero, Between(a, lo, hi))
-
-MapPar(a, lo, hi, p, old) ==
-    LET setOnes == SelectSeq(Between(a, lo, hi), LAMBDA x : a.P[x[1]][p] # Unset)
-    IN IF setOnes = <<>> THEN old
-       ELSE FoldLeft(LAMBDA acc, x :
-                        IF IsPeak(p) THEN VMax(acc, a.P[x[1]][p])
-                        ELSE VAddScaled(acc, a.P[x[1]][p], x[2], IF Integrated(p) THEN Ht(a, x[1]) ELSE hi - lo),
-                     VZero(p), setOnes)
-
 \* state of d after setAssemblyStateFromOverlaps(a, d, mapper, mapNumberDensities=True)
-MapInto(a, d) ==
-    [d EXCEPT !.N = [j \in 1..K(d) |-> [n \in Nuc |-> MapN(a, Bot(d, j), d.tops[j], n)]],
-              !.P = [j \in 1..K(d) |-> [p \in Par |-> MapPar(a, Bot(d, j), d.tops[j], p, d.P[j][p])]]]
+MapInto(a, d) == MapSel(a, d, Par, TRUE)
 
 Fresh(mesh, a) == [tops |-> mesh, fuel |-> 0, asmFuel |-> a.asmFuel,
                    N |-> [j \in 1..Len(mesh) |-> [n \in Nuc |-> RZero]],
@@ -154,14 +107,6 @@ MkAsm(mesh, q, c) ==
     [tops |-> mesh, fuel |-> c \div 2, asmFuel |-> (c % 2 = 1),
      N |-> [i \in 1..Len(mesh) |-> [n \in Nuc |-> RInt(Slot(q, NucSlot(n), i, Len(mesh)))]],
      P |-> [i \in 1..Len(mesh) |-> [p \in Par |-> ProfPar(q, p, i, Len(mesh))]]]
-
-(* ---------------- totals ---------------- *)
-Atoms(a, n) == RSumSet(1..K(a), LAMBDA i : RMul(a.N[i][n], RInt(Ht(a, i))))
-ValAt(a, i, p, g) == IF a.P[i][p] = Unset THEN RZero ELSE a.P[i][p][g]
-Tot(a, p, g) == RSumSet(1..K(a), LAMBDA i : ValAt(a, i, p, g))
-Integral(a, p, g) == RSumSet(1..K(a), LAMBDA i : RMul(ValAt(a, i, p, g), RInt(Ht(a, i))))
-AllSet(a, p) == \A i \in 1..K(a) : a.P[i][p] # Unset
-OverIdx(a, lo, hi) == {x[1] : x \in {Between(a, lo, hi)[j] : j \in 1..Len(Between(a, lo, hi))}}
 
 (* ---------------- behaviour ---------------- *)
 \* fuel layouts only matter for Snap: they are enumerated for the profiles Snap is explored from, else fixed (fuel assembly, block 1)
